@@ -7,16 +7,20 @@ sys.path.insert(0, os.path.dirname(os.path.abspath(__file__)))
 
 NEED_RG = True
 MANIFEST = dict(
-    text="Coq theorem stop_is_prefix_slice: for SliceByLine::run (fast and slow line paths, every configuration, matcher, "
-         "input, binary mode) a sink refusing at call k receives exactly the first k+1 calls of the uninterrupted run, then "
-         "one finish after Stop / none and the error after Fail; proved compositionally (prefix law closed under sequencing, "
-         "branching, fuelled loops) over the model mirroring core.rs/glue.rs. Multi-line and incremental-reader strategies, "
-         "read failures and -m N: model=code correspondence at every stop index plus the prefix oracle on the real code "
-         "(theorems for those strategies not yet proved). D7 (multi-line final flush ignored the sink) fixed.",
-    note="trusted: Coq kernel, extraction, driver, harness; scripted matcher mirrors (Rust/Gallina); the law for MultiLine and "
-         "ReadByLine is tested, not proved",
-    technique="Coq proof (compositional prefix law) + extracted-model/implementation correspondence at every stop index",
-    design="§7 C16")
+    text="Coq theorems (Props/C16.v): for all three strategies — SliceByLine::run (stop_is_prefix_slice), MultiLine::run "
+         "(stop_is_prefix_multi_line, contains the repaired final flush D7) and ReadByLine::run (stop_is_prefix_reader: every "
+         "capacity, growth policy and read history) — for every configuration, matcher, input and binary mode, a sink refusing "
+         "at call k receives exactly the first k+1 calls of the uninterrupted run, then exactly one finish after Stop / no "
+         "finish and the error after Fail; read_failure_is_prefix: a read() failing or interrupted at any index of the history "
+         "returns the error without finish and the delivered results are a prefix of those of every run agreeing before that "
+         "read. Proved compositionally (a prefix law closed under sequencing, branching, state-dependent continuation and "
+         "fuelled loops) over the model mirroring core.rs/glue.rs/line_buffer.rs; model=code correspondence at every stop "
+         "index and on failing read histories plus the prefix oracle on the real code tie it to /repo. -m N (printer level) is "
+         "C10's. D7 fixed.",
+    note="trusted: Coq kernel, extraction, driver, harness; scripted matcher mirrors (Rust/Gallina); the fill of the "
+         "multi-line heap buffer from a reader (retry of Interrupted) is outside the model",
+    technique="Coq proof (compositional prefix law, all strategies) + extracted-model/implementation correspondence at every stop index",
+    design="§7 C16, notes/C16.md")
 
 
 def events_of(out):
